@@ -188,8 +188,9 @@ def run(ctx):
         rp = json.load(open(ctx.replay))
         tasks = [tuple(rp["first"]["detail"]["task"])]
     else:
-        if not ctx.thorough and len(cases) > 6000:
-            cases = stratified_sample(cases, lambda c: (json.dumps(c["cell"]), json.dumps(c["walk"])), 6000, ctx.rng)
+        cap = 6000 if not ctx.thorough else 120000
+        if len(cases) > cap:
+            cases = stratified_sample(cases, lambda c: (json.dumps(c["cell"]), json.dumps(c["walk"])), cap, ctx.rng)
         tasks = [(c, ctx.seed + i) for i, c in enumerate(cases)]
     res = pool.run_tasks(_replay, tasks, workers=16, timeout=120, batch=16)
     nfail = 0
@@ -202,7 +203,7 @@ def run(ctx):
             by.setdefault(len(tk[0]["bonds"]), []).append(tk)
         for grp in by.values():
             ctx.rng.shuffle(grp)
-            hist += [grp[i:i + 12] for i in range(0, min(len(grp), 1200 if not ctx.thorough else len(grp)), 12)]
+            hist += [grp[i:i + 12] for i in range(0, min(len(grp), 1200 if not ctx.thorough else 24000), 12)]
         for h, (st, val) in zip(hist, pool.run_tasks(_history, hist, workers=16, timeout=600, batch=1)):
             if st != "ok":
                 nfail += 1
